@@ -15,8 +15,8 @@
      split nm             ANY way of cutting file nm into consecutive non-empty pieces (its content is their
                           concatenation, < 4 GiB); tiles split nm = the (offset, data) pairs of those pieces
      item_of d split it   chunk: it is one of the tiles of its file; 0x1210 frame: announces true sizes
-     upload_ok d [] its   decidable: control frames are 0x1210 / 0x1211 / 0x1212 with parsable bodies, chunks
-                          belong to files announced earlier.  Order, repetition (resent chunks, repeated
+     upload_ok d [] its   decidable: control frames are 0x1210 / 0x1211 / 0x1212 with parsable bodies, chunks and
+                          completion reports (0x1212) belong to files announced earlier.  Order, repetition (resent chunks, repeated
                           control frames, re-announcements), interleaving of files: arbitrary.
      reads                ANY list of byte strings whose concatenation is the stream (empty reads included).
    Names, alarm ids, file contents range over arbitrary bytes (marker 30 31 63 64 and 7e included: a
@@ -36,9 +36,8 @@ Proof. exact bytes_exact_upload. Qed.
 Print Assumptions C15_bytes_exact.
 
 (* A file is complete exactly when every tile of it has arrived since it was (last) announced - not one
-   byte fewer (a resent chunk counts once), not one chunk more.  Stated for the state the connection ends
-   in; `its` and `reads` are arbitrary, so this covers every moment between two items
-   (C15_events_are_prefix_states). *)
+   byte fewer (a resent chunk counts once), not one chunk more.  This theorem is about the state the connection
+   ends in; C15_complete_iff_every_event below is the same for every OnEvent snapshot. *)
 Theorem C15_complete_iff_all_bytes : forall d split its reads evs w sf,
   split_ok split -> Forall (wf_item d) its -> Forall (item_of d split) its -> upload_ok d [] its = true ->
   concat reads = concat (map (Attach.wire d) its) -> run d reads = (evs, w, sf) ->
@@ -66,6 +65,17 @@ Theorem C15_segmentation : forall d its sts reads,
 Proof. exact segmentation. Qed.
 Print Assumptions C15_segmentation.
 
+(* ... and at every moment: the k-th OnEvent snapshot (the one after the k-th item) shows a file complete exactly
+   when every tile of it is among the first k+1 items, since its last announcement *)
+Theorem C15_complete_iff_every_event : forall d split its reads evs w sf k e,
+  split_ok split -> Forall (wf_item d) its -> Forall (item_of d split) its -> upload_ok d [] its = true ->
+  concat reads = concat (map (Attach.wire d) its) -> run d reads = (evs, w, sf) ->
+  nth_error evs k = Some e -> (k < length its)%nat ->
+  forall nm pk, afind name_eqb nm (e_files e) = Some pk ->
+  (p_cur pk = p_size pk <-> forall t, In t (tiles split nm) -> In t (arrived d nm [] (firstn (S k) its))).
+Proof. exact complete_iff_every_event_upload. Qed.
+Print Assumptions C15_complete_iff_every_event.
+
 Theorem C15_events_are_prefix_states : forall d k its s sts, irun d s its = Some sts ->
   irun d s (firstn k its) = Some (firstn k sts).
 Proof. exact irun_firstn. Qed.
@@ -74,8 +84,8 @@ Print Assumptions C15_events_are_prefix_states.
 (* The bytes written to the socket are exactly one prescribed answer per control frame, in order, with
    platform serials 0, 1, 2, ... (mod 65536) and the header of the first message; a chunk is answered
    with nothing.  0x1210 / 0x1211 -> 0x8001 (serial, id, result 0); 0x1212 -> 0x9212 carrying the
-   retransmit list computed at that moment (C15_1212_list: StatisticalMissSegments of the named file;
-   Props/C16: exactly the missing ranges). *)
+   retransmit list held by the state after that frame (h_miss; C15_1212_reply_exact: it is
+   StatisticalMissSegments of the named file's recorded chunks, i.e. exactly the missing ranges). *)
 Theorem C15_control_replied_once : forall d its reads evs w sf,
   Forall (wf_item d) its -> upload_ok d [] its = true ->
   concat reads = concat (map (Attach.wire d) its) -> run d reads = (evs, w, sf) ->
@@ -93,6 +103,38 @@ Theorem C15_1212_list : forall d s f s', vframe f -> Attach.step d (set_hist s f
 Proof. exact frame_miss. Qed.
 Print Assumptions C15_1212_list.
 
+(* THE LINK TO C16.  In every OnEvent snapshot of every run of an upload, for every announced file: the recorded
+   (offset, length) pairs (Package.OffsetRecord) are pairwise disjoint, non-empty and inside the file - C16's
+   chunks_ok - and CurrentSize is their total - the instantiation C16 makes.  (A zero-length chunk is not a tile
+   of any split, so it is outside an upload; the server accepts one and then reports two adjacent ranges instead of
+   one maximal range: finding C15/zero-length-chunk.) *)
+Theorem C15_recorded_chunks_ok : forall d split its reads evs w sf,
+  split_ok split -> Forall (wf_item d) its -> Forall (item_of d split) its -> upload_ok d [] its = true ->
+  concat reads = concat (map (Attach.wire d) its) -> run d reads = (evs, w, sf) ->
+  forall e nm pk, In e evs -> afind name_eqb nm (e_files e) = Some pk ->
+    chunks_ok (p_size pk) (p_recs pk) /\ p_cur pk = sum_len (p_recs pk) /\ p_size pk < 4294967296.
+Proof. exact recorded_chunks_ok_upload. Qed.
+Print Assumptions C15_recorded_chunks_ok.
+
+(* THE 0x9212 ANSWER IS EXACT.  When the i-th item of an upload is a 0x1212, the file it names is in the Record
+   and the state s' after it holds as retransmit list - which is what the answer written to the socket carries
+   (C15_control_replied_once: prescribed ... (h_miss s')) - StatisticalMissSegments of the recorded chunks; by
+   C16_exact (Proofs/Ranges_proofs.miss_exact) that list is strictly ascending, maximal, inside the file, covers
+   exactly the bytes no received chunk covers, and its total is what is missing.  This is C16 over the socket path. *)
+Theorem C15_1212_reply_exact : forall d split its sts i f m t s',
+  split_ok split -> Forall (wf_item d) its -> Forall (item_of d split) its -> upload_ok d [] its = true ->
+  irun d init_st its = Some sts ->
+  nth_error its i = Some (I_frame f) -> decode f = Ok m -> m_id m = ID_1212 -> parse1211 (m_body m) = Ok t ->
+  nth_error sts i = Some s' ->
+  exists pk, afind name_eqb (f_name t) (s_record s') = Some pk /\
+  let size := p_size pk in let recs := p_recs pk in
+  let g := miss_segments size (sum_len recs) recs in
+  h_miss s' = g /\ size = len (content split (f_name t)) /\ chunks_ok size recs /\
+  sorted_maximal g /\ (forall x, covered g x -> x < size) /\
+  (forall x, x < size -> (covered g x <-> ~ covered recs x)) /\ sum_len g + sum_len recs = size.
+Proof. exact reply_1212_exact_upload. Qed.
+Print Assumptions C15_1212_reply_exact.
+
 (* the hypothesis "irun ... = Some sts" of C15_segmentation is what upload_ok guarantees *)
 Theorem C15_upload_accepted : forall d its s known, Forall (wf_item d) its -> upload_ok d known its = true ->
   (forall nm, In nm known -> afind name_eqb nm (s_record s) <> None) ->
@@ -101,7 +143,16 @@ Proof. exact upload_accepted. Qed.
 Print Assumptions C15_upload_accepted.
 
 (* a control frame / a chunk at the head of the buffer is recognised as such whatever follows it and
-   whatever it contains; a proper prefix of either waits for more data (never a fatal error) *)
+   whatever it contains; a proper prefix of either waits for more data, it is never a fatal error
+   (C15_prefix_waits); the loop over the buffer is never stopped by its fuel (C15_fuel_irrelevant) *)
+Theorem C15_prefix_waits : forall d it p x, wf_item d it -> p ++ x = Attach.wire d it -> x <> [] -> p <> [] ->
+  lex d p = L_more.
+Proof. exact prefix_waits. Qed.
+Print Assumptions C15_prefix_waits.
+Theorem C15_fuel_irrelevant : forall d f1 f2 s, (length (s_hist s) < f1)%nat -> (length (s_hist s) < f2)%nat ->
+  Attach.iter f1 d s = Attach.iter f2 d s.
+Proof. exact iter_fuel. Qed.
+Print Assumptions C15_fuel_irrelevant.
 Theorem C15_frame_recognised : forall d f rest, vframe f -> lex d (f ++ rest) = L_frame (len f).
 Proof. exact lex_frame. Qed.
 Print Assumptions C15_frame_recognised.
@@ -172,4 +223,13 @@ Proof. vm_compute. repeat split; reflexivity. Qed.
 (* the length-prefixed HLJ header with a 250-byte name: header length 4+1+250+4+4 = 263 (beyond a byte) *)
 Example C15_ex_hlj_long_name :
   lex 2 (Attach.wire 2 (I_chunk (repeat 65 250) 7 [1; 2; 3]) ++ [48; 49]) = L_chunk 263 (repeat 65 250) 7 3.
+Proof. vm_compute. reflexivity. Qed.
+
+(* the first 0x1212 of the example (item 3; only the piece at offset 2 has arrived) is answered with the list
+   [(0, 2)], the second one (item 6) with the empty list *)
+Example C15_ex_1212_lists :
+  match irun 1 init_st ex_items with
+  | Some sts => map h_miss [nth 3 sts init_st; nth 6 sts init_st] = [[(0, 2)]; []]
+  | None => False
+  end.
 Proof. vm_compute. reflexivity. Qed.
